@@ -46,3 +46,31 @@ def attempt(f, *a, **kw):
         return ('err', 'foreign:RecursionError', '')
     except Exception as e:  # noqa
         return ('err', classify(e), str(e))
+
+
+class _Deadline(BaseException):
+    pass
+
+
+def attempt_timed(seconds, f, *a, **kw):
+    """attempt() under a wall-clock limit (main thread only): ('err', 'timeout', ...) when f does not return in time."""
+    import signal
+    import threading
+    if threading.current_thread() is not threading.main_thread():
+        return attempt(f, *a, **kw)
+
+    def on_alarm(signum, frame):
+        raise _Deadline()
+    old = signal.signal(signal.SIGALRM, on_alarm)
+    try:
+        signal.setitimer(signal.ITIMER_REAL, seconds, 1.0)
+        try:
+            r = attempt(f, *a, **kw)
+        finally:
+            signal.setitimer(signal.ITIMER_REAL, 0)
+        return r
+    except _Deadline:
+        return ('err', 'timeout', 'no result within %s s' % seconds)
+    finally:
+        signal.setitimer(signal.ITIMER_REAL, 0)
+        signal.signal(signal.SIGALRM, old)
